@@ -1,6 +1,7 @@
 package main
 
 import (
+	"fmt"
 	"go/types"
 
 	"golang.org/x/tools/go/ssa"
@@ -51,9 +52,24 @@ func (x *Exec) libCall2(s *State, site ssa.Instruction, fn *ssa.Function, name s
 		s.assume(Implies(Not(e.Nil), Eq(paths.Len, Int(0))))
 		k(s, &TupleV{E: []Val{paths, e}})
 		return true
-	case "path/filepath.Clean", "path/filepath.Abs", "path/filepath.EvalSymlinks", "path/filepath.Base", "path/filepath.Dir":
+	case "path/filepath.Abs", "path/filepath.EvalSymlinks":
+		// deterministic functions of the path (and of the file system state, which
+		// is not modelled as changing during one permission check)
+		fnm := "ufs_abs"
+		if name == "path/filepath.EvalSymlinks" {
+			fnm = "ufs_evalsymlinks"
+		}
+		x.used(name + ": " + fnm + "(path), or an error")
+		e := x.freshErr(s, site, "path.err")
+		k(s, &TupleV{E: []Val{Ite(e.Nil, UF(fnm, SString, T(0)), Str("")), e}})
+		return true
+	case "path/filepath.Clean", "path/filepath.Base", "path/filepath.Dir":
 		x.used(name)
 		k(s, x.freshResult(s, site, res))
+		return true
+	case "(io/fs.FileMode).IsRegular", "(os.FileMode).IsRegular":
+		x.used(name + ": ufb_mode_regular(mode)")
+		k(s, UF("ufb_mode_regular", SBool, args[0].(*Term)))
 		return true
 	case "os.ReadFile", "os.Getpid":
 		x.used(name + " (no effect on verified state)")
@@ -81,7 +97,7 @@ func (x *Exec) libCall2(s *State, site ssa.Instruction, fn *ssa.Function, name s
 		x.used(name)
 		k(s, x.freshResult(s, site, res))
 		return true
-	case "(os.FileMode).IsRegular", "(io/fs.FileMode).IsRegular", "(io/fs.FileMode).IsDir":
+	case "(io/fs.FileMode).IsDir":
 		x.used(name)
 		k(s, x.freshResult(s, site, res))
 		return true
@@ -245,6 +261,11 @@ func init() {
 //   joinSp(x) = x[0]                        if len(x) == 1
 //   joinSp(x) = x[0] ++ " " ++ joinSp(x[1:]) otherwise
 func (x *Exec) joinSpTerm(s *State, sv *SliceV, depth int) *Term {
+	return x.joinSepTerm(s, sv, " ", depth)
+}
+
+// joinSepTerm: strings.Join(x, sep) for a literal separator, as joinSpTerm.
+func (x *Exec) joinSepTerm(s *State, sv *SliceV, sep string, depth int) *Term {
 	var arr *Term
 	if sv.Obj != nil {
 		arr = x.E.objVal(s, sv.Obj).(*ArrV).T
@@ -253,12 +274,16 @@ func (x *Exec) joinSpTerm(s *State, sv *SliceV, depth int) *Term {
 	}
 	var mk func(off, ln *Term, d int) *Term
 	mk = func(off, ln *Term, d int) *Term {
-		t := UF("ufs_joinsp", SString, arr, off, ln)
+		ufName := "ufs_joinsp"
+		if sep != " " {
+			ufName = fmt.Sprintf("ufs_join_%x", sep)
+		}
+		t := UF(ufName, SString, arr, off, ln)
 		s.assume(Implies(Le(ln, Int(0)), Eq(t, Str(""))))
 		s.assume(Implies(Eq(ln, Int(1)), Eq(t, Select(arr, off))))
 		if d > 0 {
 			rest := mk(Add(off, Int(1)), Sub(ln, Int(1)), d-1)
-			s.assume(Implies(Ge(ln, Int(2)), Eq(t, Concat(Select(arr, off), Str(" "), rest))))
+			s.assume(Implies(Ge(ln, Int(2)), Eq(t, Concat(Select(arr, off), Str(sep), rest))))
 		}
 		return t
 	}
@@ -289,5 +314,63 @@ func init() {
 	specDefs["flagOf"] = func(env *SpecEnv, args []Val) Val {
 		n, _ := env.scalar(args[0])
 		return Ite(Eq(n, Str("default")), Int(1), Ite(Eq(n, Str("invert")), Int(2), Ite(Eq(n, Str("noop")), Int(3), Int(0))))
+	}
+}
+
+func init() {
+	// Permission rules (C08). A rule applies to permission type T if it is
+	// prefixed "T:" (then its body is the rest) or bare (then its body is the
+	// rule itself); a body starting with '!' is a deny pattern. The verdict over
+	// the first k rules: the last rule whose pattern matches the path decides,
+	// no match means deny. Defined by recursion on k; the engine supplies the
+	// unfolding for each k it evaluates.
+	// The type of a rule is the text in front of its first ':' if that text is a
+	// permission type name (ufb_typename: a non-empty lower case word, defined
+	// by isPermissionType's contract), else "readfiles" (a bare rule, whose ':'
+	// characters, if any, belong to the regex). The body is the rest.
+	ruleParts := func(st *State, r, ptype *Term) (applies, neg, rx *Term) {
+		idx := StrIndexOf(r, Str(":"), Int(0))
+		tp := Substr(r, Int(0), idx)
+		typed := And(Gt(idx, Int(0)), UF("ufb_typename", SBool, tp))
+		applies = Eq(Ite(typed, tp, Str("readfiles")), ptype)
+		body := Ite(typed, Substr(r, Add(idx, Int(1)), Sub(StrLen(r), Add(idx, Int(1)))), r)
+		neg = StrPrefixOf(Str("!"), body)
+		rx = Ite(neg, Substr(body, Int(1), Sub(StrLen(body), Int(1))), body)
+		return
+	}
+	// typeName(s): s is a non-empty lower case word. An uninterpreted predicate
+	// with its defining axiom supplied for every s it is evaluated on.
+	specDefs["typeName"] = func(env *SpecEnv, args []Val) Val {
+		t, ok := env.scalar(args[0])
+		if !ok {
+			env.errf("typeName(s)")
+			return TFalse
+		}
+		env.x.E.nextObj++
+		j := Var(fmt.Sprintf("j!tn%d", env.x.E.nextObj), SInt)
+		c := app("str.to_code", SInt, StrAt(t, j))
+		def := And(Gt(StrLen(t), Int(0)), Forall([]*Term{j}, Implies(And(Le(Int(0), j), Lt(j, StrLen(t))), And(Ge(c, Int(97)), Le(c, Int(122))))))
+		u := UF("ufb_typename", SBool, t)
+		env.s.assume(Eq(u, def))
+		return u
+	}
+	specDefs["permVerdict"] = func(env *SpecEnv, args []Val) Val {
+		sv, ok := args[0].(*SliceV)
+		k, ok2 := env.scalar(args[1])
+		path, ok3 := env.scalar(args[2])
+		ptype, ok4 := env.scalar(args[3])
+		if !ok || !ok2 || !ok3 || !ok4 || sv.Obj == nil {
+			env.errf("permVerdict(rules, k, path, type)")
+			return TFalse
+		}
+		arr := env.x.E.objVal(env.cur(), sv.Obj).(*ArrV).T
+		V := func(k *Term) *Term { return UF("ufb_permverdict", SBool, arr, sv.Off, k, path, ptype) }
+		st := env.s
+		r := Select(arr, Add(sv.Off, Sub(k, Int(1))))
+		applies, neg, rx := ruleParts(st, r, ptype)
+		m := And(applies, UF("re_match", SBool, rx, path))
+		st.assume(Implies(Le(k, Int(0)), Not(V(k))))
+		st.assume(Implies(Gt(k, Int(0)), Eq(V(k), Ite(m, Not(neg), V(Sub(k, Int(1)))))))
+		return V(k)
 	}
 }
